@@ -201,7 +201,9 @@ func (g *control) stmt(depth int, inLoop, first, last bool) []psref.Tok {
 		g.feat["stop"] = true
 		return []psref.Tok{psref.TX("stop")}
 	case k == 20 || k == 21: // define a procedure or value
-		name := []string{"p", "q", "x", "y", "add", "pop"}[g.draw(6, "defname")]
+		// (one of the names has bytes >= 0x80: a name is a byte string, the
+		// same whether it is written literally or executably)
+		name := []string{"p", "q", "x", "y", "add", "pop", "n\xe9\xff"}[g.draw(7, "defname")]
 		g.names = append(g.names, name)
 		g.feat["def"] = true
 		if g.draw(3, "defkind") == 0 {
@@ -214,7 +216,7 @@ func (g *control) stmt(depth int, inLoop, first, last bool) []psref.Tok {
 		}
 		return []psref.Tok{psref.TL(name), p, psref.TX("def")}
 	case k == 22 || k == 23 || k == 28 || k == 29: // use a name
-		name := []string{"p", "q", "x", "y"}[g.draw(4, "usename")]
+		name := []string{"p", "q", "x", "y", "n\xe9\xff"}[g.draw(5, "usename")]
 		if len(g.names) > 0 && g.draw(3, "defined") > 0 {
 			// prefer a name that was defined earlier in the text (calls,
 			// rebinding between definition and use)
